@@ -101,6 +101,7 @@ func setHashMode(mode int) {
 
 const (
 	stableBase = 1_000_000
+	steadyBase = 3_000_000
 	churnBase  = 2_000_000
 )
 
@@ -343,6 +344,45 @@ func clearCheck(seed uint64) string {
 	}
 	if m.Size() != 40 {
 		return fmt.Sprintf("Size()=%d after inserting 40 keys into a cleared table", m.Size())
+	}
+	// Clear while other goroutines make the table grow: the keys that were present before Clear was
+	// called, and that nobody writes again, must be gone when it returns.
+	otter.VerifSetHook(compHook(seed, []int{0, 50, 200}[rng.Intn(3)]))
+	defer otter.VerifSetHook(nil)
+	for round := 0; round < 6; round++ {
+		m2 := otter.VerifNewMap(0)
+		old := 20 + rng.Intn(200)
+		for i := 0; i < old; i++ {
+			m2.Compute(i, func(int, bool) (int, int) { return i + 1, 1 })
+		}
+		var started, stop atomic.Bool
+		var cw sync.WaitGroup
+		for g := 0; g < 2; g++ {
+			cw.Add(1)
+			go func(g int) {
+				defer cw.Done()
+				for i := 0; i < 4000 && !stop.Load(); i++ {
+					k := churnBase + g*100000 + i
+					m2.Compute(k, func(int, bool) (int, int) { return 1, 1 })
+					started.Store(true)
+				}
+			}(g)
+		}
+		for !started.Load() {
+			runtime.Gosched()
+		}
+		for i := 0; i < rng.Intn(50); i++ {
+			runtime.Gosched()
+		}
+		m2.Clear()
+		stop.Store(true)
+		cw.Wait()
+		for i := 0; i < old; i++ {
+			if v, ok := m2.Get(i); ok {
+				return fmt.Sprintf("key %d (value %d) was present before Clear was called and is written by nobody else, but it is still found after Clear returned (other goroutines were inserting other keys, growing the table, meanwhile)", i, v)
+			}
+		}
+		progress.Add(1)
 	}
 	return ""
 }
@@ -627,6 +667,9 @@ func cacheIter(seed uint64) (violation string, iterations, yields int64) {
 			removedAt.Store(e.Value, now())
 		},
 	}
+	if r.Chance(1, 2) {
+		o.MaximumSize = 1 << 22 // never reached: the eviction policy is on, so replaced nodes are retired
+	}
 	c, err := otter.New(o)
 	if err != nil {
 		return "cannot build: " + err.Error(), 0, 0
@@ -636,6 +679,11 @@ func cacheIter(seed uint64) (violation string, iterations, yields int64) {
 	defer otter.VerifSetHook(nil)
 	for i := 0; i < stable; i++ {
 		c.Set(stableBase+i, stableBase+i)
+	}
+	// steady keys are present all the time as well, but their value is replaced over and over
+	steady := 1 + r.Intn(20)
+	for i := 0; i < steady; i++ {
+		c.Set(steadyBase+i, -1)
 	}
 	written := sync.Map{} // value -> key
 	var stop atomic.Bool
@@ -668,6 +716,16 @@ func cacheIter(seed uint64) (violation string, iterations, yields int64) {
 			}
 		}(w)
 	}
+	wg.Add(1)
+	go func() {
+		defer wg.Done()
+		for i := 0; !stop.Load(); i++ {
+			c.Set(steadyBase+i%steady, -2-i)
+			if i%64 == 0 {
+				progress.Add(1)
+			}
+		}
+	}()
 	churnKeys := 200 + r.Intn(2000)
 	wg.Add(1)
 	go func() {
@@ -746,6 +804,12 @@ func cacheIter(seed uint64) (violation string, iterations, yields int64) {
 				for i := 0; i < stable; i++ {
 					if seen[stableBase+i] != 1 {
 						fail(fmt.Sprintf("an iteration did not yield stable key %d, which was present for its whole duration", stableBase+i))
+						break
+					}
+				}
+				for i := 0; i < steady; i++ {
+					if seen[steadyBase+i] != 1 {
+						fail(fmt.Sprintf("an iteration did not yield key %d, which was present for its whole duration (its value is replaced concurrently, it is never removed; eviction policy on: %v)", steadyBase+i, o.MaximumSize != 0))
 						break
 					}
 				}
